@@ -147,7 +147,8 @@ impl GraphBlock {
             GraphBlock::OrderedList(items) => items
                 .iter()
                 .map(|item| blocks_to_markdown_and(item, self.is_sparce_list(), options))
-                .filter(|text| !text.trim().is_empty())
+                // (Markdown white space only: a non-breaking space is content)
+                .filter(|text| !text.trim_matches(|c: char| c.is_ascii_whitespace()).is_empty())
                 .enumerate()
                 .map(|(n, text)| {
                     left_pad_and_prefix_num(&text, n + 1, if alternate { ')' } else { '.' })
@@ -157,7 +158,7 @@ impl GraphBlock {
             GraphBlock::BulletList(items) => items
                 .iter()
                 .map(|item| blocks_to_markdown_and(item, self.is_sparce_list(), options))
-                .filter(|text| !text.trim().is_empty())
+                .filter(|text| !text.trim_matches(|c: char| c.is_ascii_whitespace()).is_empty())
                 .map(|text| left_pad_and_prefix(&text, if alternate { '*' } else { '-' }))
                 .collect::<Vec<String>>()
                 .join(if self.is_sparce_list() { "\n" } else { "" }),
@@ -665,8 +666,27 @@ pub fn inlines_to_markdown(content: &GraphInlines, options: &MarkdownOptions) ->
         .join("")
 }
 
+// a block that is written as nothing: an empty quote (a bare ">", or one that held only a dropped
+// html block), a list without any content, an empty dropped block
+fn is_blank(block: &GraphBlock) -> bool {
+    match block {
+        GraphBlock::BlockQuote(blocks) => blocks.iter().all(is_blank),
+        GraphBlock::OrderedList(items) | GraphBlock::BulletList(items) => {
+            items.iter().all(|item| item.iter().all(is_blank))
+        }
+        GraphBlock::RawBlock(_, text) => text.trim().is_empty(),
+        _ => false,
+    }
+}
+
 fn blocks_to_strings(blocks: &Blocks, options: &MarkdownOptions) -> Vec<String> {
     let mut alternate = false;
+    // blank blocks are left out: written as empty lines they vanish on the next pass, and two
+    // lists around one would be read back as a single list
+    let blocks = blocks
+        .iter()
+        .filter(|block| !is_blank(block))
+        .collect::<Vec<_>>();
     blocks
         .iter()
         .enumerate()
